@@ -3,6 +3,7 @@ package main
 import (
 	"github.com/bradenaw/juniper/container/tree"
 	"github.com/bradenaw/juniper/iterator"
+	"math"
 )
 
 func init() { components["tree"] = runTree }
@@ -46,15 +47,31 @@ func runTree(c *Case) *Obs {
 		}
 		return (a - b) * 3
 	}
+	// cfg "cmpscale": 1 = the extreme results MinInt / MaxInt, 2 = magnitudes of 2^33 and more (beyond int32)
+	cmpScale := 0
+	if v, ok := c.Cfg["cmpscale"]; ok {
+		cmpScale = num(v)
+	}
+	stretch := func(r int) int {
+		switch {
+		case r == 0 || cmpScale == 0:
+			return r
+		case cmpScale == 1 && r < 0:
+			return math.MinInt
+		case cmpScale == 1:
+			return math.MaxInt
+		}
+		return r << 33
+	}
 	var compare func(a, b int) int
 	var less func(a, b int) bool
 	switch mode {
 	case 0:
-		compare = func(a, b int) int { calls++; return cmp3(a, b) }
+		compare = func(a, b int) int { calls++; return stretch(cmp3(a, b)) }
 	case 1:
-		compare = func(a, b int) int { calls++; return cmp3(b, a) }
+		compare = func(a, b int) int { calls++; return stretch(cmp3(b, a)) }
 	case 2:
-		compare = func(a, b int) int { calls++; return floorDiv4(a) - floorDiv4(b) }
+		compare = func(a, b int) int { calls++; return stretch(floorDiv4(a) - floorDiv4(b)) }
 	case 3:
 		less = func(a, b int) bool { calls++; return a < b }
 	case 4:
